@@ -25,13 +25,14 @@ import (
 
 	"github.com/google/uuid"
 	hio "github.com/hprose/hprose-golang/v3/io"
+	"github.com/hprose/hprose-golang/v3/rpc/codec/jsonrpc"
 	"github.com/hprose/hprose-golang/v3/rpc/core"
 	"hv/hvlib"
 )
 
 type c04Case struct {
 	ID    int    `json:"id"`
-	Entry string `json:"entry"` // unmarshal | service | client | oracle | seeds
+	Entry string `json:"entry"` // unmarshal | service | client | jservice | jclient (JSON-RPC codecs) | oracle | seeds
 	Hex   string `json:"hex"`
 	T     *TD    `json:"t,omitempty"`    // unmarshal: destination type
 	Mode  string `json:"mode,omitempty"` // unmarshal: simple | ref
@@ -39,6 +40,24 @@ type c04Case struct {
 	RT    []*TD  `json:"rt,omitempty"`   // client: return types
 	Kind  string `json:"kind,omitempty"` // oracle: which library parser
 	Dump  bool   `json:"dump,omitempty"` // unmarshal: also print the decoded value (calibration witnesses only)
+	Opts  *opts  `json:"o,omitempty"`    // decoder options other than the defaults (unmarshal, service, client, jservice)
+}
+
+// opts: the decoder's public knobs (io.Decoder fields / core.With*Type codec options), as their enum values
+type opts struct {
+	List   int `json:"list,omitempty"`   // io.ListType: 0 []interface{} | 1 []T
+	Struct int `json:"struct,omitempty"` // io.StructType: 0 *T | 1 T
+	Map    int `json:"map,omitempty"`    // io.MapType: 0 map[interface{}]interface{} | 1 map[string]interface{}
+	Long   int `json:"long,omitempty"`   // io.LongType: 0 int | 1 uint | 2 int64 | 3 uint64 | 4 *big.Int
+	Real   int `json:"real,omitempty"`   // io.RealType: 0 float64 | 1 float32 | 2 *big.Float
+}
+
+func (o *opts) codec() []core.CodecOption {
+	if o == nil {
+		return nil
+	}
+	return []core.CodecOption{core.WithListType(hio.ListType(o.List)), core.WithStructType(hio.StructType(o.Struct)),
+		core.WithMapType(hio.MapType(o.Map)), core.WithLongType(hio.LongType(o.Long)), core.WithRealType(hio.RealType(o.Real))}
 }
 
 type c04Obs struct {
@@ -268,15 +287,70 @@ func missing(name string, args []interface{}) ([]interface{}, error) {
 
 var svcA, svcB *core.Service
 
+func newService(which string) *core.Service {
+	s := core.NewService()
+	if which == "b" {
+		s.AddFunction(add, "add")
+		s.AddMissingMethod(missing)
+		return s
+	}
+	s.AddFunction(add, "add")
+	s.AddFunction(echo, "echo")
+	s.AddFunction(sum, "sum")
+	s.AddFunction(user, "user")
+	return s
+}
+
 func services() {
-	svcA = core.NewService()
-	svcA.AddFunction(add, "add")
-	svcA.AddFunction(echo, "echo")
-	svcA.AddFunction(sum, "sum")
-	svcA.AddFunction(user, "user")
-	svcB = core.NewService()
-	svcB.AddFunction(add, "add")
-	svcB.AddMissingMethod(missing)
+	svcA = newService("a")
+	svcB = newService("b")
+}
+
+// a service whose codec is not the default one (decoder options, JSON-RPC), built once per configuration
+var svcCache = map[string]*core.Service{}
+
+func serviceFor(c *c04Case) *core.Service {
+	which := "a"
+	if c.Svc == "b" {
+		which = "b"
+	}
+	if c.Opts == nil && c.Entry == "service" {
+		if which == "b" {
+			return svcB
+		}
+		return svcA
+	}
+	k, _ := json.Marshal(c.Opts)
+	key := c.Entry + which + string(k)
+	if s, ok := svcCache[key]; ok {
+		return s
+	}
+	s := newService(which)
+	if c.Entry == "jservice" {
+		s.Codec = jsonrpc.NewServiceCodec(nil, c.Opts.codec()...)
+	} else {
+		s.Codec = core.NewServiceCodec(c.Opts.codec()...)
+	}
+	svcCache[key] = s
+	return s
+}
+
+func unmarshalWith(o *opts, simple bool, data []byte, p interface{}) error {
+	// what io.Formatter.Unmarshal does, with the two options Formatter does not carry
+	var dec *hio.Decoder
+	if simple {
+		dec = hio.NewDecoder(data)
+	} else {
+		dec = hio.GetDecoder().Simple(false).ResetBytes(data)
+		defer hio.FreeDecoder(dec)
+	}
+	dec.LongType = hio.LongType(o.Long)
+	dec.RealType = hio.RealType(o.Real)
+	dec.MapType = hio.MapType(o.Map)
+	dec.StructType = hio.StructType(o.Struct)
+	dec.ListType = hio.ListType(o.List)
+	dec.Decode(p)
+	return dec.Error
 }
 
 func exactCopy(b []byte) []byte {
@@ -293,7 +367,12 @@ func runEntry(c *c04Case, data []byte, obs *c04Obs) error {
 			return err
 		}
 		p := reflect.New(t).Interface()
-		derr := hio.Formatter{Simple: c.Mode != "ref"}.Unmarshal(data, p)
+		var derr error
+		if c.Opts == nil {
+			derr = hio.Formatter{Simple: c.Mode != "ref"}.Unmarshal(data, p)
+		} else {
+			derr = unmarshalWith(c.Opts, c.Mode != "ref", data, p)
+		}
 		setErr(obs, derr)
 		obs.Corrupt = sane(reflect.ValueOf(p), 0)
 		if c.Dump && obs.Corrupt == "" {
@@ -302,18 +381,15 @@ func runEntry(c *c04Case, data []byte, obs *c04Obs) error {
 				obs.Dump = obs.Dump[:200]
 			}
 		}
-	case "service":
-		s := svcA
-		if c.Svc == "b" {
-			s = svcB
-		}
+	case "service", "jservice":
+		s := serviceFor(c)
 		ctx := core.NewServiceContext(s)
 		name, args, derr := s.Codec.Decode(data, ctx)
 		obs.Name = hex.EncodeToString([]byte(name))
 		obs.NArgs = len(args)
 		setErr(obs, derr)
 		obs.Corrupt = sane(reflect.ValueOf(args), 0)
-	case "client":
+	case "client", "jclient":
 		ctx := core.NewClientContext()
 		for _, td := range c.RT {
 			t, err := typeOf(td)
@@ -322,7 +398,13 @@ func runEntry(c *c04Case, data []byte, obs *c04Obs) error {
 			}
 			ctx.ReturnType = append(ctx.ReturnType, t)
 		}
-		res, derr := core.NewClientCodec().Decode(data, ctx)
+		var codec core.ClientCodec
+		if c.Entry == "jclient" {
+			codec = jsonrpc.NewClientCodec(nil)
+		} else {
+			codec = core.NewClientCodec(c.Opts.codec()...)
+		}
+		res, derr := codec.Decode(data, ctx)
 		obs.NRes = len(res)
 		setErr(obs, derr)
 		obs.Corrupt = sane(reflect.ValueOf(res), 0)
@@ -434,6 +516,11 @@ func oracle(kind string, s string) (ok bool, err error) {
 	case kind == "f64z": // the value ParseFloat returns is zero (0 on a syntax error, +-Inf on a range error)
 		f, _ := strconv.ParseFloat(s, 64)
 		return f == 0, nil
+	case kind == "intexp": // a float text that denotes more binary digits than a *big.Int destination accepts (io.maxBigIntBits)
+		bf, k := new(big.Float).SetString(s)
+		return k && !bf.IsInf() && bf.MantExp(nil) > 1<<16, nil
+	case kind == "ratexp": // a text whose written exponent is beyond what a *big.Rat destination accepts (io.maxTextExponent)
+		return exponentTooLarge(s), nil
 	case strings.HasPrefix(kind, "i"):
 		b, e0 := strconv.Atoi(kind[1:])
 		if e0 != nil {
@@ -484,6 +571,26 @@ func oracle(kind string, s string) (ok bool, err error) {
 		return false, nil
 	}
 	return false, fmt.Errorf("unknown oracle kind %q", kind)
+}
+
+// exponentTooLarge: the predicate of io/big_decoder.go (repaired tree), restated
+func exponentTooLarge(s string) bool {
+	marks, m := "eEpP", s
+	if len(m) > 0 && (m[0] == '+' || m[0] == '-') {
+		m = m[1:]
+	}
+	if len(m) > 1 && m[0] == '0' && (m[1] == 'x' || m[1] == 'X') {
+		marks = "pP"
+	}
+	i := strings.LastIndexAny(s, marks)
+	if i < 0 {
+		return false
+	}
+	n, err := strconv.ParseInt(s[i+1:], 10, 64)
+	if err != nil {
+		return false
+	}
+	return n > 1<<14 || n < -(1<<14)
 }
 
 func runCase(line []byte, out *json.Encoder) error {
